@@ -182,7 +182,7 @@ func universal(sc *Scn, x *vrt.Sched, w *World) []Finding {
 			add("C08", "a server-side socket is still open at the end", fmt.Sprintf("%v; log: %v", open, x.Log))
 		}
 		if !sp.Srv.NoOnClose {
-			if len(w.OnClose) != vnet.Accepted() {
+			if vnet.Accepted() >= 0 && len(w.OnClose) != vnet.Accepted() {
 				add("C08", fmt.Sprintf("OnClose called %s than once per accepted connection", map[bool]string{true: "more", false: "less"}[len(w.OnClose) > vnet.Accepted()]), fmt.Sprintf("accepted=%d OnClose calls=%v; log: %v", vnet.Accepted(), w.OnClose, x.Log))
 			}
 			seen := map[int]bool{}
